@@ -88,3 +88,32 @@ Section C10source.
 End C10source.
 Print Assumptions C10_distributions_py_moment_with_end_time_is_the_accumulation_at_that_time.
 Print Assumptions C10_distributions_py_moment_over_a_window_is_a_difference.
+
+(* ---- the SOURCE of the default horizon (TreeHeightDistribution._get_absorption_time / t_max, translated on every run by
+   translate/search2coq.py into gen/SearchGen.v): the doubling search runs on the source's own distribution function, and when no
+   warning is logged the probability required was reached at the time that is used ---- *)
+From mathcomp Require Import all_ssreflect all_algebra.
+From PG Require Import analysis.Rstruct analysis.RSums analysis.MExp analysis.Denote analysis.CdfFacts.
+From PG Require Import gen.NpLoops gen.SearchGen proofs.GenSearchEquiv analysis.SourceSearch.
+Delimit Scope Q_scope with QQ.
+Theorem C10_distributions_py_horizon_is_the_search_on_its_own_cdf :
+  forall (expm : seq (seq R) -> seq (seq R)),
+    (forall n A, wf n n A -> wf n n (expm A) /\ mx_of n n (expm A) = mexp (mx_of n n A)) ->
+  forall (lt_TQ : R -> Q -> bool) (n : nat) (Ss : seq (Q * seq (seq R))) (Slast : seq (seq R)) (alpha e : seq R),
+    all_wf n Ss -> wf n n Slast -> size e = n -> epochs_wf (seq (seq R)) 0%QQ Ss ->
+  forall (t0 p_abs : Q) (max_iter : nat), (0 <= t0)%QQ ->
+    TreeHeightDistribution_get_absorption_time OpsR expm lt_TQ n alpha e (pos_of Slast Ss).1 (pos_of Slast Ss).2 t0 p_abs max_iter
+    = t_horizon (cdf_at expm Ss Slast alpha e) lt_TQ t0 p_abs max_iter.
+Proof. exact @source_horizon_is_search_on_cdf. Qed.
+Print Assumptions C10_distributions_py_horizon_is_the_search_on_its_own_cdf.
+
+Theorem C10_distributions_py_default_horizon_or_warning :
+  forall (expm : seq (seq R) -> seq (seq R)),
+    (forall n A, wf n n A -> wf n n (expm A) /\ mx_of n n (expm A) = mexp (mx_of n n A)) ->
+  forall n Ss Slast alpha e t0 p_abs max_iter,
+    all_wf n Ss -> wf n n Slast -> size e = n -> epochs_wf (seq (seq R)) 0%QQ Ss -> (0 <= t0)%QQ ->
+    let lt_RQ := fun (x : R) (q : Q) => if Rlt_dec x (Q2R q) then true else false in
+    let r := TreeHeightDistribution_get_absorption_time OpsR expm lt_RQ n alpha e (pos_of Slast Ss).1 (pos_of Slast Ss).2 t0 p_abs max_iter in
+    r.2 = false -> Rle (Q2R p_abs) (cdf_at expm Ss Slast alpha e r.1).
+Proof. exact @source_horizon_sound. Qed.
+Print Assumptions C10_distributions_py_default_horizon_or_warning.
